@@ -274,3 +274,901 @@ Proof.
     + rewrite A2, A3, !app_length. lia.
     + rewrite A3, A4, !app_length. unfold sub, val in *. lia.
 Qed.
+
+(* ------------------------------------------------------------------ one sympy_simplify call: it always completes *)
+
+Definition finv (n : nat) (fr : frame) : Prop :=
+  length (fG fr) = n /\ length (fL fr) = n /\
+  length (f_ci fr) = length (f_ri fr) /\ length (f_ri fr) = length (f_ns fr) /\
+  Forall (fun x => x < n) (f_ci fr) /\ Forall (fun x => x < n) (f_ri fr).
+
+Lemma nth_error_some_lt : forall A (l : list A) i, i < length l -> exists x, nth_error l i = Some x.
+Proof.
+  intros. destruct (nth_error l i) eqn:E; eauto. apply nth_error_None in E. lia.
+Qed.
+
+Lemma store_lengths : forall i l fr, length (fG (store i l fr)) = length (fG fr) /\ length (fL (store i l fr)) = length (fL fr).
+Proof.
+  intros. unfold store. destruct (nth_error (fL fr) i) as [e|]; auto. cbn.
+  rewrite set_nth_length. split; auto.
+  destruct (e_alias e); auto. destruct (nth_error (fG fr) i); auto. apply set_nth_length.
+Qed.
+
+Lemma run_block_at_inv : forall n k i t c fr,
+  finv n fr -> simplify_kind k = true -> blk_ok k n t = true -> i < n ->
+  exists fr', run_block_at k i (t, c) fr = Some fr' /\ finv n fr'.
+Proof.
+  intros n k i t c fr (G1 & G2 & G3 & G4 & G5 & G6) Hk Hok Hi.
+  unfold run_block_at, load.
+  destruct (nth_error_some_lt _ (fL fr) i) as [e He]; [lia|]. rewrite He.
+  set (l := mkLoc (e_str e) (e_sym e) (e_subs e) (f_f0 fr) (f_f1 fr) (f_expr fr) (f_ci fr) (f_ri fr) (f_ns fr) [] [] false).
+  destruct (run_block k (t, c) l) as [l'|] eqn:R.
+  - eexists. split; [reflexivity|].
+    assert (LO : lists_ok n l) by (unfold lists_ok, leq3, l; cbn; auto).
+    destruct (run_block_lists_ok _ _ _ _ _ _ Hk Hok LO R) as [[M1 M2] [M3 M4]].
+    destruct (store_lengths i l' fr) as [S1 S2].
+    unfold finv. rewrite S1, S2. repeat split; auto; unfold store; rewrite He; cbn; auto.
+  - exfalso. revert R. apply self_guarded_runs. simpl.
+    unfold blk_ok in Hok. apply andb_prop in Hok. destruct Hok as [Hok _]. apply andb_prop in Hok. tauto.
+Qed.
+
+Lemma run_blocks_from_inv : forall n k bs i fr,
+  finv n fr -> simplify_kind k = true -> i + length bs = n ->
+  forallb (fun b => blk_ok k n (fst b)) bs = true ->
+  exists fr', run_blocks_from k i bs fr = Some fr' /\ finv n fr'.
+Proof.
+  induction bs as [|[t c] bs IH]; intros i fr Hf Hk Hl Hok; simpl in *.
+  - eauto.
+  - apply andb_prop in Hok. destruct Hok as [H1 H2].
+    destruct (run_block_at_inv n k i t c fr Hf Hk H1) as [fr1 [R1 F1]]; [lia|].
+    rewrite R1. apply IH; auto. lia.
+Qed.
+
+Lemma merge_from_some : forall fuel i ci ri ns G,
+  length ci = length ri -> length ri = length ns ->
+  Forall (fun x => x < length G) ci -> Forall (fun x => x < length G) ri ->
+  i + fuel = length ci ->
+  exists G', merge_from fuel i ci ri ns G = Some G' /\ length G' = length G.
+Proof.
+  induction fuel as [|fuel IH]; intros i ci ri ns G L1 L2 F1 F2 Hi; simpl.
+  - eauto.
+  - destruct (nth_error_some_lt _ ci i) as [c Hc]; [lia|].
+    destruct (nth_error_some_lt _ ri i) as [r Hr]; [lia|].
+    destruct (nth_error_some_lt _ ns i) as [s Hs]; [unfold sub in *; lia|].
+    rewrite Hc, Hr.
+    destruct (negb (mem_nat r (firstn i ci)) && negb (mem_nat c (firstn i ci))).
+    + assert (Cl : c < length G) by (rewrite Forall_forall in F1; apply F1; eapply nth_error_In; eauto).
+      assert (Rl : r < length G) by (rewrite Forall_forall in F2; apply F2; eapply nth_error_In; eauto).
+      destruct (nth_error_some_lt _ G c Cl) as [gc Hgc].
+      destruct (nth_error_some_lt _ G r Rl) as [gr Hgr].
+      rewrite Hgc, Hgr, Hs.
+      destruct (IH (S i) ci ri ns (set_nth c (mkG (g_str gr) (g_sym gr) (Some (subs_list (g_subs gc) ++ [s]))) G))
+        as [G' [M Ln]]; auto; try (rewrite set_nth_length; auto); try lia.
+      exists G'. split; auto. rewrite Ln, set_nth_length. reflexivity.
+    + apply IH; auto. lia.
+Qed.
+
+Lemma make_changes_lists_length : forall G L, length (make_changes_lists G L) = length G.
+Proof. induction G; destruct L; simpl; auto. Qed.
+
+Lemma zoo_fix_length : forall zs L, length (zoo_fix zs L) = length L.
+Proof. induction zs; destruct L; simpl; auto. Qed.
+
+Lemma run_stage_inv : forall n s fr, finv n fr -> stage_ok n s = true ->
+  exists fr', run_stage s fr = Some fr' /\ finv n fr'.
+Proof.
+  intros n s fr Hf Hok. pose proof Hf as (G1 & G2 & G3 & G4 & G5 & G6).
+  destruct s; simpl in *.
+  - apply andb_prop in Hok. destruct Hok as [Hok H3]. apply andb_prop in Hok. destruct Hok as [H1 H2].
+    apply Nat.eqb_eq in H2. apply run_blocks_from_inv; auto.
+  - eexists. split; [reflexivity|]. unfold finv, make_changes; cbn. rewrite make_changes_lists_length. auto 10.
+  - eexists. split; [reflexivity|]. unfold finv, reslice; cbn. rewrite map_length. auto 10.
+  - eexists. split; [reflexivity|]. unfold finv, reset_lists; cbn. auto 10.
+  - unfold merge.
+    destruct (merge_from_some (length (f_ci fr)) 0 (f_ci fr) (f_ri fr) (f_ns fr) (fG fr)) as [G' [M Ln]]; auto;
+      try (rewrite G1; auto).
+    rewrite M. eexists. split; [reflexivity|]. unfold finv; cbn. rewrite Ln. auto 10.
+  - eexists. split; [reflexivity|]. unfold finv; cbn. rewrite zoo_fix_length. auto 10.
+Qed.
+
+Lemma run_stages_inv : forall n ss fr, finv n fr -> forallb (stage_ok n) ss = true ->
+  exists fr', run_stages ss fr = Some fr' /\ finv n fr'.
+Proof.
+  induction ss as [|s ss IH]; intros fr Hf Hok; simpl in *.
+  - eauto.
+  - apply andb_prop in Hok. destruct Hok as [H1 H2].
+    destruct (run_stage_inv n s fr Hf H1) as [fr1 [R1 F1]]. rewrite R1. auto.
+Qed.
+
+Lemma init_frame_inv : forall G, finv (length G) (init_frame G).
+Proof. intros. unfold finv, init_frame, reslice; cbn. rewrite map_length. auto 10. Qed.
+
+(* COMPLETES (one call).  For every script whose block traces are well formed -- and for EVERY choice of
+   cuts, since well-formedness only looks at the traces -- sympy_simplify returns, with one entry per function. *)
+Theorem call_completes : forall ss G,
+  forallb (stage_ok (length G)) ss = true ->
+  exists G', run_call ss G = Some G' /\ length G' = length G.
+Proof.
+  intros ss G Hok. unfold run_call.
+  destruct (run_stages_inv (length G) ss (init_frame G) (init_frame_inv G) Hok) as [fr [R F]].
+  rewrite R. eexists. split; [reflexivity|]. apply F.
+Qed.
+
+(* ------------------------------------------------------------------ expand_or_factor always completes *)
+
+Lemma no_reads_guarded : forall es f1 fx,
+  forallb (fun e : ev => match fst e with EUse _ => false | _ => true end) es = true ->
+  fst (fst (guarded_evs es f1 fx)) = true.
+Proof.
+  induction es as [|[f v] es IH]; intros; simpl in *; auto.
+  apply andb_prop in H. destruct H as [H1 H2].
+  destruct f; try destruct v0; simpl in *; try discriminate; auto.
+Qed.
+
+Lemma conforms_KX_no_reads : forall t, conforms KX t = true ->
+  forallb (fun e : ev => match fst e with EUse _ => false | _ => true end) (concat t) = true.
+Proof.
+  intros t H. unfold conforms in H. rewrite forallb_forall in *. intros [f v] Hin.
+  specialize (H _ Hin). destruct f; try destruct v0; simpl in *; auto; discriminate.
+Qed.
+
+Lemma forallb_app_l : forall A (p : A -> bool) a b, forallb p (a ++ b) = true -> forallb p a = true.
+Proof. intros. rewrite forallb_app in H. apply andb_prop in H. tauto. Qed.
+
+Lemma run_expand_from_inv : forall bs xi xv,
+  forallb (fun b => conforms KX (fst b) && aligned (fst b)) bs = true ->
+  length xi <= length xv ->
+  exists xi' xv', run_expand_from bs xi xv = Some (xi', xv') /\ length xi' <= length xv'.
+Proof.
+  induction bs as [|[t c] bs IH]; intros xi xv Hok Hle; simpl in *.
+  - eauto.
+  - apply andb_prop in Hok. destruct Hok as [H1 H2]. apply andb_prop in H1. destruct H1 as [Hc Ha].
+    destruct (executed_prefix (t, c)) as [rest P]. simpl in P.
+    assert (NR : forallb (fun e : ev => match fst e with EUse _ => false | _ => true end) (executed (t, c)) = true).
+    { apply conforms_KX_no_reads in Hc. rewrite P in Hc. eapply forallb_app_l; eauto. }
+    unfold run_block.
+    destruct (exec_evs (executed (t, c)) (xloc xi xv)) as [l1|] eqn:E.
+    + destruct (exec_evs_lists _ _ _ E) as (_ & _ & _ & _ & A5 & A6). cbn in A5, A6.
+      destruct c as [p|]; cbn.
+      * apply IH; auto. rewrite firstn_length. lia.
+      * apply IH; auto. unfold executed in *. simpl in *.
+        unfold aligned in Ha. apply andb_prop in Ha. destruct Ha as [_ Ha]. apply Nat.eqb_eq in Ha.
+        rewrite A5, A6, !app_length. unfold val in *. lia.
+    + exfalso. apply exec_evs_guarded in E. rewrite (no_reads_guarded _ _ _ NR) in E. discriminate.
+Qed.
+
+Theorem expand_completes : forall bs,
+  forallb (fun b => conforms KX (fst b) && aligned (fst b)) bs = true ->
+  exists ch, run_expand bs = Some ch.
+Proof.
+  intros bs H. unfold run_expand.
+  destruct (run_expand_from_inv bs [] [] H (le_n 0)) as (xi & xv & R & L). rewrite R.
+  apply Nat.leb_le in L. rewrite L. eauto.
+Qed.
+
+(* ------------------------------------------------------------------ which entries a block stage touches *)
+
+Definition loc_of (e : lent) (fr : frame) : loc :=
+  mkLoc (e_str e) (e_sym e) (e_subs e) (f_f0 fr) (f_f1 fr) (f_expr fr) (f_ci fr) (f_ri fr) (f_ns fr) [] [] false.
+
+Lemma run_block_at_others : forall k i b fr fr', run_block_at k i b fr = Some fr' ->
+  forall j, j <> i -> nth_error (fL fr') j = nth_error (fL fr) j /\ nth_error (fG fr') j = nth_error (fG fr) j.
+Proof.
+  intros k i b fr fr' H j Hj. unfold run_block_at, load in H.
+  destruct (nth_error (fL fr) i) as [e|] eqn:He; [|discriminate].
+  destruct (run_block k b _) as [l'|]; [|discriminate]. inversion H; subst; clear H.
+  unfold store. rewrite He. cbn. split.
+  - apply nth_error_set_nth_neq. auto.
+  - destruct (e_alias e); auto. destruct (nth_error (fG fr) i); auto. apply nth_error_set_nth_neq. auto.
+Qed.
+
+Lemma run_block_at_self : forall k i b fr fr' e g, run_block_at k i b fr = Some fr' ->
+  nth_error (fL fr) i = Some e -> nth_error (fG fr) i = Some g ->
+  exists l', run_block k b (loc_of e fr) = Some l' /\
+    nth_error (fL fr') i = Some (mkE (l_str l') (l_sym l') (l_subs l') (e_alias e)) /\
+    nth_error (fG fr') i = Some (if e_alias e then mkG (g_str g) (g_sym g) (l_subs l') else g).
+Proof.
+  intros k i b fr fr' e g H He Hg. unfold run_block_at, load in H. rewrite He in H.
+  fold (loc_of e fr) in H.
+  destruct (run_block k b (loc_of e fr)) as [l'|]; [|discriminate]. inversion H; subst; clear H.
+  exists l'. split; auto. unfold store. rewrite He, Hg. cbn.
+  assert (Li : i < length (fL fr)) by (apply nth_error_Some; congruence).
+  assert (Gi : i < length (fG fr)) by (apply nth_error_Some; congruence).
+  split.
+  - apply nth_error_set_nth_eq. auto.
+  - destruct (e_alias e); auto. apply nth_error_set_nth_eq. auto.
+Qed.
+
+(* what a block stage does to function i: only block i touches it *)
+Lemma run_blocks_from_entry : forall k bs i0 fr fr', run_blocks_from k i0 bs fr = Some fr' ->
+  (forall j, j < i0 -> nth_error (fL fr') j = nth_error (fL fr) j /\ nth_error (fG fr') j = nth_error (fG fr) j) /\
+  (forall m b e g, nth_error bs m = Some b ->
+     nth_error (fL fr) (i0 + m) = Some e -> nth_error (fG fr) (i0 + m) = Some g ->
+     exists frm l', run_block k b (loc_of e frm) = Some l' /\
+       nth_error (fL fr') (i0 + m) = Some (mkE (l_str l') (l_sym l') (l_subs l') (e_alias e)) /\
+       nth_error (fG fr') (i0 + m) = Some (if e_alias e then mkG (g_str g) (g_sym g) (l_subs l') else g)).
+Proof.
+  induction bs as [|b0 bs IH]; intros i0 fr fr' H; simpl in H.
+  - inversion H; subst. split; auto. intros m b e g Hb. destruct m; discriminate.
+  - destruct (run_block_at k i0 b0 fr) as [fr1|] eqn:R1; [|discriminate].
+    destruct (IH (S i0) fr1 fr' H) as [IH1 IH2]. split.
+    + intros j Hj. destruct (IH1 j) as [A B]; [lia|].
+      destruct (run_block_at_others _ _ _ _ _ R1 j) as [C D]; [lia|]. rewrite A, B. auto.
+    + intros m b e g Hb He Hg. destruct m as [|m]; simpl in Hb.
+      * inversion Hb; subst b0. rewrite Nat.add_0_r in *.
+        destruct (run_block_at_self _ _ _ _ _ _ _ R1 He Hg) as [l' [A [B C]]].
+        exists fr, l'. split; auto.
+        destruct (IH1 i0) as [D E]; [lia|]. rewrite D, E. auto.
+      * replace (i0 + S m) with (S i0 + m) in * by lia.
+        destruct (run_block_at_others _ _ _ _ _ R1 (S i0 + m)) as [C D]; [lia|].
+        apply (IH2 m b e g Hb); congruence.
+Qed.
+
+(* STALE SUBSTITUTIONS, stage level.  After a block stage, function i has
+   (str, sym, subs0 ++ everything block i appended); when block i was cut, str and sym are the old ones;
+   all_inv_subs[i] sees the appended entries exactly when inv_subs_fun[i] was the same list object. *)
+Theorem stage_entry : forall k bs fr fr' i b e g,
+  run_blocks_from k 0 bs fr = Some fr' ->
+  nth_error bs i = Some b -> nth_error (fL fr) i = Some e -> nth_error (fG fr) i = Some g ->
+  exists e', nth_error (fL fr') i = Some e' /\ e_alias e' = e_alias e /\
+    subs_list (e_subs e') = subs_list (e_subs e) ++ appended b /\
+    (is_cut b = true -> restoring k -> e_str e' = e_str e /\ e_sym e' = e_sym e) /\
+    nth_error (fG fr') i = Some (if e_alias e then mkG (g_str g) (g_sym g) (e_subs e') else g).
+Proof.
+  intros k bs fr fr' i b e g H Hb He Hg.
+  destruct (run_blocks_from_entry _ _ _ _ _ H) as [_ P].
+  destruct (P i b e g Hb He Hg) as (frm & l' & R & A & B).
+  eexists. split; [exact A|]. cbn. split; auto. split.
+  - unfold run_block in R. destruct (exec_evs (executed b) (loc_of e frm)) as [l1|] eqn:E; [|discriminate].
+    destruct (exec_evs_lists _ _ _ E) as (S1 & _). cbn in S1.
+    inversion R; subst. unfold appended.
+    destruct (is_cut b); auto. destruct (handler_of k); cbn; auto.
+  - split; auto. intros Hc Hr.
+    destruct (cut_block_state _ _ _ _ Hr Hc R) as (S1 & S2 & _). cbn in S1, S2. auto.
+Qed.
+
+Lemma make_changes_spec : forall G L i g,
+  nth_error G i = Some g ->
+  nth_error (make_changes_lists G L) i =
+  Some (match nth_error L i with
+        | Some e => if e_str e =? g_str g then g else mkG (e_str e) (e_sym e) (e_subs e)
+        | None => g end).
+Proof.
+  induction G as [|g0 G IH]; intros L i g H.
+  - destruct i; discriminate.
+  - destruct L as [|e0 L]; simpl.
+    + rewrite H. destruct i; reflexivity.
+    + destruct i as [|i]; simpl in *.
+      * inversion H; subst. reflexivity.
+      * apply IH. exact H.
+Qed.
+
+Lemma reslice_entry : forall fr i g, nth_error (fG fr) i = Some g ->
+  nth_error (fL (reslice fr)) i = Some (mkE (g_str g) (g_sym g) (g_subs g) (is_some (g_subs g))) /\
+  nth_error (fG (reslice fr)) i = Some g.
+Proof.
+  intros. unfold reslice; cbn. split; auto. rewrite nth_error_map, H. reflexivity.
+Qed.
+
+(* SKIPPED CLEANLY.  Between a slice and the next make_changes, a function whose only block is cut, and whose
+   substitution list was None when it was sliced, leaves NOTHING behind in the global lists: the stale entries stay in
+   the rank-local copy and are discarded.  (sympy_simplify with max_param <= 1: block KB is the only block before
+   the first make_changes; all_inv_subs is all None at entry -- do_sympy resets it every round.) *)
+Theorem stale_dropped : forall k bs fr0 fr' i b g,
+  restoring k ->
+  run_blocks_from k 0 bs (reslice fr0) = Some fr' ->
+  nth_error bs i = Some b -> is_cut b = true ->
+  nth_error (fG fr0) i = Some g -> g_subs g = None ->
+  nth_error (fG (make_changes fr')) i = Some g.
+Proof.
+  intros k bs fr0 fr' i b g Hr H Hb Hc Hg Hn.
+  destruct (reslice_entry fr0 i g Hg) as [He Hg'].
+  destruct (stage_entry _ _ _ _ _ _ _ _ H Hb He Hg') as (e' & A & B & C & D & E).
+  destruct (D Hc Hr) as [D1 D2]. cbn in *.
+  rewrite Hn in E. cbn in E.
+  unfold make_changes; cbn. rewrite (make_changes_spec _ _ _ _ E), A, D1, Nat.eqb_refl. reflexivity.
+Qed.
+
+(* ... but whatever is in the local list goes to the global lists as soon as the STRING differs at make_changes
+   time -- because an earlier or a later block of the same function, in the same window, changed it. *)
+Theorem stale_propagates : forall fr i g e,
+  nth_error (fG fr) i = Some g -> nth_error (fL fr) i = Some e -> e_str e <> g_str g ->
+  nth_error (fG (make_changes fr)) i = Some (mkG (e_str e) (e_sym e) (e_subs e)).
+Proof.
+  intros fr i g e Hg He Hne. unfold make_changes; cbn.
+  rewrite (make_changes_spec _ _ _ _ Hg), He.
+  destruct (e_str e =? g_str g) eqn:E; auto. apply Nat.eqb_eq in E. contradiction.
+Qed.
+
+(* ... and, when the list was not None at slice time, inv_subs_fun[i] IS all_inv_subs[i]: a cut block's appends are
+   in the global list at once, string restored or not (block KE after a first make_changes). *)
+Theorem alias_stale_reaches_global : forall k bs fr0 fr' i b g l0,
+  restoring k ->
+  run_blocks_from k 0 bs (reslice fr0) = Some fr' ->
+  nth_error bs i = Some b -> is_cut b = true ->
+  nth_error (fG fr0) i = Some g -> g_subs g = Some l0 ->
+  exists g', nth_error (fG (make_changes fr')) i = Some g' /\
+    g_str g' = g_str g /\ g_sym g' = g_sym g /\ subs_list (g_subs g') = l0 ++ appended b.
+Proof.
+  intros k bs fr0 fr' i b g l0 Hr H Hb Hc Hg Hs.
+  destruct (reslice_entry fr0 i g Hg) as [He Hg'].
+  destruct (stage_entry _ _ _ _ _ _ _ _ H Hb He Hg') as (e' & A & B & C & D & E).
+  destruct (D Hc Hr) as [D1 D2]. cbn in *.
+  rewrite Hs in E, C. cbn in E, C.
+  eexists. split.
+  - unfold make_changes; cbn. rewrite (make_changes_spec _ _ _ _ E), A. cbn. rewrite D1, Nat.eqb_refl. reflexivity.
+  - cbn. auto.
+Qed.
+
+(* ------------------------------------------------------------------ the whole run completes *)
+
+Lemma run_calls_completes : forall cs U o, forallb call_ok cs = true -> exists o', run_calls cs U o = Some o' .
+Proof.
+  induction cs as [|c cs IH]; intros U o H; simpl in *.
+  - eauto.
+  - apply andb_prop in H. destruct H as [H1 H2]. unfold call_ok in H1.
+    apply andb_prop in H1. destruct H1 as [L S]. apply Nat.eqb_eq in L.
+    set (Gin := map (fun ps => mkG (nth (fst ps) U 0) (snd ps) None) (combine (c_group c) (c_syms c))).
+    assert (LG : length Gin = length (c_group c)).
+    { unfold Gin. rewrite map_length, combine_length. lia. }
+    rewrite <- LG in S.
+    destruct (call_completes _ _ S) as [G' [R _]]. rewrite R. apply IH. exact H2.
+Qed.
+
+Lemma run_round_completes : forall cs lb, forallb call_ok cs = true ->
+  exists lb', run_round cs lb = Some lb' /\
+    length (lb_fun lb') = length (lb_fun lb) /\
+    length (lb_chain lb') = Nat.min (length (lb_fun lb)) (length (lb_chain lb)).
+Proof.
+  intros cs lb H. unfold run_round.
+  destruct (run_calls_completes cs (dedupe (lb_fun lb)) (map (fun u => (u, None)) (dedupe (lb_fun lb))) H) as [o R].
+  rewrite R. eexists. split; [reflexivity|]. cbn. rewrite !map_length, combine_length. auto.
+Qed.
+
+Lemma run_rounds_completes : forall rs lb, forallb (forallb call_ok) rs = true ->
+  length (lb_chain lb) = length (lb_fun lb) ->
+  exists lb', run_rounds rs lb = Some lb' /\ length (lb_fun lb') = length (lb_fun lb) /\
+              length (lb_chain lb') = length (lb_fun lb).
+Proof.
+  induction rs as [|r rs IH]; intros lb H L; simpl in *.
+  - eauto.
+  - apply andb_prop in H. destruct H as [H1 H2].
+    destruct (run_round_completes r lb H1) as [lb1 [R [A B]]]. rewrite R.
+    destruct (IH lb1 H2) as [lb2 [R2 [C D]]]; [lia|].
+    exists lb2. split; auto. split; lia.
+Qed.
+
+(* COMPLETES (whole run).  Whatever subset of the time-limited blocks is cut, and wherever: the rounds, both
+   expansions and the final files are reached.  (run_ok constrains the traces, not the cuts.) *)
+Theorem generation_completes : forall nparam cancel n orig r,
+  run_ok r = true -> exists y, generate nparam cancel n orig r = Some y.
+Proof.
+  intros nparam cancel n orig r H. unfold run_ok in H.
+  apply andb_prop in H. destruct H as [H H4]. apply andb_prop in H. destruct H as [H H3].
+  apply andb_prop in H. destruct H as [H1 H2].
+  unfold generate, pre_check.
+  destruct (run_rounds_completes (gr_rounds1 r) (mkLib orig (map (fun _ => []) orig)) H1) as [lb1 [R1 [A1 B1]]].
+  { cbn. apply map_length. }
+  rewrite R1.
+  destruct (expand_completes _ H2) as [c1 E1]. rewrite E1.
+  destruct (run_rounds_completes (gr_rounds2 r) lb1 H3) as [lb2 [R2 _]]; [lia|].
+  rewrite R2.
+  destruct (expand_completes _ H4) as [c2 E2]. rewrite E2. eauto.
+Qed.
+
+(* ------------------------------------------------------------------ check_results *)
+
+Lemma mem_nat_In : forall x l, mem_nat x l = true <-> In x l.
+Proof.
+  intros. unfold mem_nat. rewrite existsb_exists. split.
+  - intros [y [A B]]. apply Nat.eqb_eq in B. subst. auto.
+  - intros A. exists x. split; auto. apply Nat.eqb_refl.
+Qed.
+
+Lemma to_change_subset : forall nparam y order cs x, In x (to_change nparam y order cs) -> In x order.
+Proof.
+  induction order as [|j order IH]; intros cs x H; simpl in *.
+  - destruct cs; auto.
+  - destruct cs as [|c cs]; [contradiction|].
+    destruct (checked nparam y j).
+    + destruct (chk_unmerges c).
+      * destruct H as [H|H]; auto. right. eauto.
+      * right. eauto.
+    + right. eauto.
+Qed.
+
+Lemma chk_for_In : forall nparam y order cs i c, chk_for nparam y order cs i = Some c -> In i order.
+Proof.
+  induction order as [|j order IH]; intros cs i c H; simpl in *.
+  - destruct cs; discriminate.
+  - destruct cs as [|c0 cs]; [discriminate|].
+    destruct (checked nparam y j).
+    + destruct (j =? i) eqn:E.
+      * apply Nat.eqb_eq in E. auto.
+      * right. eauto.
+    + right. eauto.
+Qed.
+
+(* a function is un-merged exactly when the check consumed for it did not end in a verified comparison *)
+Lemma to_change_iff : forall nparam y order cs i, NoDup order ->
+  (In i (to_change nparam y order cs) <->
+   exists c, chk_for nparam y order cs i = Some c /\ chk_unmerges c = true).
+Proof.
+  induction order as [|j order IH]; intros cs i ND; simpl.
+  - destruct cs as [|c1 cs]; split; try contradiction; intros [c [A _]]; discriminate.
+  - inversion ND as [|? ? Hnin ND']; subst.
+    destruct cs as [|c0 cs].
+    + split; [contradiction|]. intros [c [A _]]. discriminate.
+    + destruct (checked nparam y j) eqn:CK.
+      * destruct (j =? i) eqn:E.
+        -- apply Nat.eqb_eq in E. subst j.
+           destruct (chk_unmerges c0) eqn:U.
+           ++ split; intros _; [eauto | left; auto].
+           ++ split.
+              ** intros H. apply to_change_subset in H. contradiction.
+              ** intros [c [A B]]. inversion A; subst. congruence.
+        -- apply Nat.eqb_neq in E.
+           destruct (chk_unmerges c0).
+           ++ rewrite <- (IH cs i ND'). split; [intros [H|H]; [contradiction|auto] | intro; right; auto].
+           ++ apply IH. auto.
+      * apply IH. auto.
+Qed.
+
+Lemma nth_map_combine_seq : forall A B (f : nat * A -> B) (l : list A) i dA dB, i < length l ->
+  nth i (map f (combine (seq 0 (length l)) l)) dB = f (i, nth i l dA).
+Proof.
+  intros A B f l i dA dB Hi.
+  rewrite (nth_indep _ dB (f (0, dA))) by (rewrite map_length, combine_length, seq_length; lia).
+  rewrite (map_nth f (combine (seq 0 (length l)) l) (0, dA) i).
+  rewrite combine_nth by apply seq_length.
+  rewrite seq_nth by auto. reflexivity.
+Qed.
+
+Lemma memv_In : forall x l, memv x l = true <-> In x l.
+Proof. exact mem_nat_In. Qed.
+
+Lemma dedupe_acc_In : forall l seen x, In x l -> In x seen \/ In x (dedupe_acc seen l).
+Proof.
+  induction l as [|a l IH]; intros seen x H; simpl in *; [contradiction|].
+  destruct (memv a seen) eqn:M.
+  - destruct H as [H|H]; [subst; left; apply memv_In; auto | auto].
+  - destruct H as [H|H]; [subst; right; left; auto|].
+    destruct (IH (a :: seen) x H) as [[K|K]|K]; [subst; right; left; auto | auto | right; right; auto].
+Qed.
+
+Lemma dedupe_In : forall l x, In x l -> In x (dedupe l).
+Proof. intros. destruct (dedupe_acc_In l [] x H); [contradiction|auto]. Qed.
+
+Lemma index_of_In : forall x l, In x l -> index_of x l < length l /\ nth (index_of x l) l 0 = x.
+Proof.
+  induction l as [|a l IH]; intros H; simpl in *; [contradiction|].
+  destruct (x =? a) eqn:E.
+  - apply Nat.eqb_eq in E. subst. split; [lia|auto].
+  - destruct H as [H|H]; [subst; rewrite Nat.eqb_refl in E; discriminate|].
+    destruct (IH H). split; [lia|auto].
+Qed.
+
+(* FINAL LIBRARY.  After check_results, whatever happened before it and whatever is cut inside it:
+   every function has a match; it is either its own unique with an empty chain, or it keeps its match and chain and
+   -- if the chain is non-trivial and the parameter counts are equal -- the chain was verified by the comparison,
+   which ran to completion (not cut, nothing raised). *)
+Theorem check_results_sound : forall nparam y order cs,
+  let y' := check_results nparam y order cs in
+  let N := length (y_match y) in
+  NoDup order ->
+  length (y_chain y) = N -> length (y_orig y) = N ->
+  (forall i, i < N -> nth i (y_match y) 0 < length (y_uniq y)) ->
+  (forall i, i < N -> checked nparam y i = true -> chk_for nparam y order cs i <> None) ->
+  forall i, i < N ->
+    nth i (y_match y') 0 < length (y_uniq y') /\
+    ( (nth (nth i (y_match y') 0) (y_uniq y') 0 = nth i (y_orig y) 0 /\ nth i (y_chain y') [] = [])
+      \/
+      (nth i (y_match y') 0 = nth i (y_match y) 0 /\ nth i (y_chain y') [] = nth i (y_chain y) [] /\
+       nth (nth i (y_match y') 0) (y_uniq y') 0 = nth (nth i (y_match y) 0) (y_uniq y) 0 /\
+       (checked nparam y i = true ->
+        exists c, chk_for nparam y order cs i = Some c /\ chk_unmerges c = false)) ).
+Proof.
+  intros nparam y order cs y' N ND LC LO MR CV i Hi.
+  set (tc := to_change nparam y order cs).
+  set (newu := dedupe (map (fun i => nth i (y_orig y) 0) tc)).
+  assert (M' : nth i (y_match y') 0 =
+               if mem_nat i tc then length (y_uniq y) + index_of (nth i (y_orig y) 0) newu else nth i (y_match y) 0).
+  { unfold y', check_results. cbn. fold tc. fold newu.
+    rewrite (nth_map_combine_seq _ _ _ (y_match y) i 0 0 Hi). reflexivity. }
+  assert (C' : nth i (y_chain y') [] = if mem_nat i tc then [] else nth i (y_chain y) []).
+  { unfold y', check_results. cbn. fold tc.
+    rewrite (nth_map_combine_seq _ _ _ (y_chain y) i [] []) by lia. reflexivity. }
+  assert (U' : y_uniq y' = y_uniq y ++ newu) by reflexivity.
+  destruct (mem_nat i tc) eqn:MT.
+  - (* un-merged *)
+    apply mem_nat_In in MT.
+    assert (IN : In (nth i (y_orig y) 0) newu).
+    { apply dedupe_In. apply (in_map (fun i => nth i (y_orig y) 0)) in MT. exact MT. }
+    destruct (index_of_In _ _ IN) as [I1 I2].
+    rewrite M', C', U', app_length. split; [lia|]. left. split; auto.
+    rewrite app_nth2 by lia. replace (length (y_uniq y) + index_of (nth i (y_orig y) 0) newu - length (y_uniq y))
+      with (index_of (nth i (y_orig y) 0) newu) by lia. exact I2.
+  - (* kept *)
+    rewrite M', C', U', app_length. specialize (MR i Hi). split; [lia|]. right.
+    repeat split; auto.
+    + apply app_nth1. exact MR.
+    + intros CK. destruct (chk_for nparam y order cs i) as [c|] eqn:CF; [|exfalso; eapply CV; eauto].
+      exists c. split; auto. destruct (chk_unmerges c) eqn:UM; auto.
+      exfalso. assert (In i tc) by (apply to_change_iff; eauto). apply mem_nat_In in H. congruence.
+Qed.
+
+(* 'nan' never remains on a pair with equal parameter counts (ast.literal_eval('nan') raises inside the check) *)
+Theorem check_results_no_nan : forall nparam y order cs,
+  let y' := check_results nparam y order cs in
+  let N := length (y_match y) in
+  NoDup order ->
+  length (y_chain y) = N -> length (y_orig y) = N ->
+  (forall i, i < N -> nth i (y_match y) 0 < length (y_uniq y)) ->
+  (forall i, i < N -> checked nparam y i = true -> chk_for nparam y order cs i <> None) ->
+  (forall i c, chk_for nparam y order cs i = Some c -> In NAN (nth i (y_chain y) []) -> chk_unmerges c = true) ->
+  forall i, i < N -> In NAN (nth i (y_chain y') []) ->
+    nparam (nth i (y_orig y') 0) <> nparam (nth (nth i (y_match y') 0) (y_uniq y') 0).
+Proof.
+  intros nparam y order cs y' N ND LC LO MR CV RJ i Hi HN.
+  destruct (check_results_sound nparam y order cs ND LC LO MR CV i Hi) as [_ [[_ E]|[A [B [C D]]]]].
+  - fold y' in E. rewrite E in HN. contradiction.
+  - fold y' in A, B, C. rewrite B in HN. rewrite C. change (y_orig y') with (y_orig y).
+    intro EQ.
+    assert (CK : checked nparam y i = true).
+    { unfold checked. apply andb_true_intro. split.
+      - destruct (nth i (y_chain y) []); [contradiction|reflexivity].
+      - apply Nat.eqb_eq. exact EQ. }
+    destruct (D CK) as [c [F G]]. rewrite (RJ i c F HN) in G. discriminate.
+Qed.
+
+(* the library handed to check_results is well formed: one match and one chain per function, matches in range *)
+Lemma index_of_dedupe_lt : forall f l, In f l -> index_of f (dedupe l) < length (dedupe l).
+Proof. intros. apply index_of_In. apply dedupe_In. exact H. Qed.
+
+Lemma finish_wf : forall cancel orig lb,
+  length (lb_fun lb) = length orig -> length (lb_chain lb) = length orig ->
+  let y := finish cancel orig lb in
+  length (y_match y) = length orig /\ length (y_chain y) = length orig /\ y_orig y = orig /\
+  (forall i, i < length orig -> nth i (y_match y) 0 < length (y_uniq y)).
+Proof.
+  intros cancel orig lb L1 L2 y. unfold y, finish; cbn. rewrite !map_length. repeat split; auto.
+  intros i Hi.
+  rewrite (nth_indep _ 0 (index_of 0 (dedupe (lb_fun lb)))) by (rewrite map_length; lia).
+  rewrite (map_nth (fun f => index_of f (dedupe (lb_fun lb)))).
+  apply index_of_dedupe_lt. apply nth_In. lia.
+Qed.
+
+Lemma run_round_lengths : forall cs lb lb', run_round cs lb = Some lb' ->
+  length (lb_fun lb') = length (lb_fun lb) /\ length (lb_chain lb') = Nat.min (length (lb_fun lb)) (length (lb_chain lb)).
+Proof.
+  intros cs lb lb' H. unfold run_round in H.
+  destruct (run_calls cs _ _); [|discriminate]. inversion H; subst; cbn.
+  rewrite !map_length, combine_length. auto.
+Qed.
+
+Lemma run_rounds_lengths : forall rs lb lb', run_rounds rs lb = Some lb' ->
+  length (lb_chain lb) = length (lb_fun lb) ->
+  length (lb_fun lb') = length (lb_fun lb) /\ length (lb_chain lb') = length (lb_fun lb).
+Proof.
+  induction rs as [|r rs IH]; intros lb lb' H L; simpl in H.
+  - inversion H; subst. auto.
+  - destruct (run_round r lb) as [lb1|] eqn:R; [|discriminate].
+    destruct (run_round_lengths _ _ _ R) as [A B].
+    destruct (IH _ _ H) as [C D]; [lia|]. split; lia.
+Qed.
+
+Lemma pre_check_wf : forall cancel orig r y, pre_check cancel orig r = Some y ->
+  length (y_match y) = length orig /\ length (y_chain y) = length orig /\ y_orig y = orig /\
+  (forall i, i < length orig -> nth i (y_match y) 0 < length (y_uniq y)).
+Proof.
+  intros cancel orig r y H. unfold pre_check in H.
+  destruct (run_rounds (gr_rounds1 r) _) as [lb1|] eqn:R1; [|discriminate].
+  destruct (run_expand (gr_expand1 r)); [|discriminate].
+  destruct (run_rounds (gr_rounds2 r) lb1) as [lb2|] eqn:R2; [|discriminate].
+  destruct (run_expand (gr_expand2 r)); [|discriminate].
+  inversion H; subst.
+  destruct (run_rounds_lengths _ _ _ R1) as [A B]; [cbn; apply map_length|]. cbn in A, B.
+  destruct (run_rounds_lengths _ _ _ R2) as [C D]; [lia|].
+  apply finish_wf; lia.
+Qed.
+
+(* FINAL LIBRARY, whole run, n > 2: for EVERY choice of cuts in every block of every round, of both expansions and
+   of check_results itself. *)
+Theorem final_library_sound : forall nparam cancel n orig r y',
+  2 < n -> generate nparam cancel n orig r = Some y' -> NoDup (gr_order r) ->
+  exists y, pre_check cancel orig r = Some y /\ y' = check_results nparam y (gr_order r) (gr_checks r) /\
+  ((forall i, i < length orig -> checked nparam y i = true -> chk_for nparam y (gr_order r) (gr_checks r) i <> None) ->
+   forall i, i < length orig ->
+    nth i (y_match y') 0 < length (y_uniq y') /\
+    ( (nth (nth i (y_match y') 0) (y_uniq y') 0 = nth i orig 0 /\ nth i (y_chain y') [] = [])
+      \/
+      (nth i (y_match y') 0 = nth i (y_match y) 0 /\ nth i (y_chain y') [] = nth i (y_chain y) [] /\
+       nth (nth i (y_match y') 0) (y_uniq y') 0 = nth (nth i (y_match y) 0) (y_uniq y) 0 /\
+       (checked nparam y i = true ->
+        exists c, chk_for nparam y (gr_order r) (gr_checks r) i = Some c /\ chk_unmerges c = false)) )).
+Proof.
+  intros nparam cancel n orig r y' Hn H ND. unfold generate in H.
+  destruct (pre_check cancel orig r) as [y|] eqn:P; [|discriminate].
+  apply Nat.ltb_lt in Hn. rewrite Hn in H. inversion H; subst; clear H.
+  exists y. split; auto. split; auto. intros CV i Hi.
+  destruct (pre_check_wf _ _ _ _ P) as (A & B & C & D).
+  pose proof (check_results_sound nparam y (gr_order r) (gr_checks r) ND) as S. cbv zeta in S.
+  rewrite A, C in S. apply S; auto.
+Qed.
+
+(* ------------------------------------------------------------------ structural facts and witnesses *)
+
+Lemma tables_transparent : forall k, transparent (table k) = true.
+Proof. destruct k; vm_compute; reflexivity. Qed.
+
+Lemma stale_witness :
+  forallb (stage_ok 1) stale_witness_script = true /\
+  (exists g, run_call stale_witness_script [mkG 1 2 None] = Some [g] /\ In NAN (subs_list (g_subs g))) /\
+  (exists g, run_call stale_witness_skipped [mkG 1 2 None] = Some [g] /\ ~ In NAN (subs_list (g_subs g))).
+Proof.
+  split; [vm_compute; reflexivity|]. split.
+  - eexists. split; [vm_compute; reflexivity|]. cbn. auto.
+  - eexists. split; [vm_compute; reflexivity|]. cbn. intros [H|[]]. discriminate.
+Qed.
+
+(* ------------------------------------------------------------------ calls with at most one parameter *)
+
+Lemma run_blocks_from_lengths : forall k bs i0 fr fr', run_blocks_from k i0 bs fr = Some fr' ->
+  length (fG fr') = length (fG fr) /\ length (fL fr') = length (fL fr).
+Proof.
+  induction bs as [|b bs IH]; intros i0 fr fr' H; simpl in H.
+  - inversion H; auto.
+  - destruct (run_block_at k i0 b fr) as [fr1|] eqn:R; [|discriminate].
+    destruct (IH _ _ _ H) as [A B]. unfold run_block_at in R.
+    destruct (load i0 fr); [|discriminate]. destruct (run_block k b l); [|discriminate]. inversion R; subst.
+    destruct (store_lengths i0 l0 fr) as [C D]. split; congruence.
+Qed.
+
+(* a block stage that starts right after a slice *)
+Lemma stage_from_reslice : forall k bs fr0 fr fr',
+  fL fr = fL (reslice fr0) -> fG fr = fG fr0 ->
+  run_blocks_from k 0 bs fr = Some fr' -> length bs = length (fG fr0) ->
+  forall i g, nth_error (fG fr0) i = Some g ->
+  exists b e' g', nth_error bs i = Some b /\ nth_error (fL fr') i = Some e' /\ nth_error (fG fr') i = Some g' /\
+    subs_list (e_subs e') = subs_list (g_subs g) ++ appended b /\
+    (is_cut b = true -> restoring k -> e_str e' = g_str g /\ e_sym e' = g_sym g) /\
+    g_str g' = g_str g /\ g_sym g' = g_sym g /\
+    (g_subs g' = g_subs g \/ (is_some (g_subs g) = true /\ g_subs g' = e_subs e')).
+Proof.
+  intros k bs fr0 fr fr' HL HG H Len i g Hg.
+  assert (Hi : i < length bs) by (rewrite Len; apply nth_error_Some; congruence).
+  destruct (nth_error_some_lt _ bs i Hi) as [b Hb].
+  destruct (reslice_entry fr0 i g Hg) as [He _]. rewrite <- HL in He. rewrite <- HG in Hg.
+  destruct (stage_entry _ _ _ _ _ _ _ _ H Hb He Hg) as (e' & A & B & C & D & E). cbn in *.
+  exists b, e'. eexists. split; [exact Hb|]. split; [exact A|]. split; [exact E|].
+  split; [exact C|]. split; [exact D|].
+  destruct (is_some (g_subs g)) eqn:S; cbn; auto.
+Qed.
+
+Lemma conforms_no_subs : forall k t, conforms k t = true -> (k = KC \/ k = KD) ->
+  forall es rest, concat t = es ++ rest -> vals_of is_sub es = [].
+Proof.
+  intros k t C Hk es rest E. unfold conforms in C. rewrite E, forallb_app in C.
+  apply andb_prop in C. destruct C as [C _]. clear E.
+  induction es as [|[f v] es IH]; simpl in *; auto.
+  apply andb_prop in C. destruct C as [C1 C2]. specialize (IH C2).
+  unfold vals_of in *. simpl.
+  destruct Hk as [Hk|Hk]; subst k; destruct f; try destruct v0; simpl in *; try discriminate; auto.
+Qed.
+
+Lemma In_firstn : forall A (x : A) m l, In x (firstn m l) -> In x l.
+Proof. induction m; destruct l; simpl; intros; auto; try contradiction. destruct H; auto. Qed.
+
+Lemma vals_of_In_app : forall f a b x, In x (vals_of f a) -> In x (vals_of f (a ++ b)).
+Proof. intros. rewrite vals_of_app. apply in_or_app. auto. Qed.
+
+(* where the entries of new_inv_subs come from *)
+Lemma run_block_ns_provenance : forall k b l l' s, run_block k b l = Some l' -> In s (l_ns l') ->
+  In s (l_ns l) \/ In s (vals_of is_ns (concat (fst b))).
+Proof.
+  intros k b l l' s H Hin. unfold run_block in H.
+  destruct (exec_evs (executed b) l) as [l1|] eqn:E; [|discriminate].
+  destruct (exec_evs_lists _ _ _ E) as (_ & _ & _ & A4 & _).
+  destruct (executed_prefix b) as [rest P].
+  assert (K : In s (l_ns l1) -> In s (l_ns l) \/ In s (vals_of is_ns (concat (fst b)))).
+  { rewrite A4. intro X. apply in_app_or in X. destruct X; auto. right. rewrite P. apply vals_of_In_app. auto. }
+  inversion H; subst; clear H. destruct (is_cut b); auto.
+  destruct (handler_of k); cbn in Hin; auto. apply K. eapply In_firstn; eauto.
+Qed.
+
+Lemma run_blocks_ns_provenance : forall k bs i0 fr fr' s, run_blocks_from k i0 bs fr = Some fr' -> In s (f_ns fr') ->
+  In s (f_ns fr) \/ exists b, In b bs /\ In s (vals_of is_ns (concat (fst b))).
+Proof.
+  induction bs as [|b bs IH]; intros i0 fr fr' s H Hin; simpl in H.
+  - inversion H; subst. auto.
+  - destruct (run_block_at k i0 b fr) as [fr1|] eqn:R; [|discriminate].
+    destruct (IH _ _ _ _ H Hin) as [A|[b' [A B]]].
+    + unfold run_block_at, load in R. destruct (nth_error (fL fr) i0) as [e|] eqn:He; [|discriminate].
+      destruct (run_block k b _) as [l'|] eqn:RB; [|discriminate]. inversion R; subst; clear R.
+      unfold store in A. rewrite He in A. cbn in A.
+      destruct (run_block_ns_provenance _ _ _ _ _ RB A) as [X|X]; cbn in X; auto.
+      right. exists b. split; [left; auto|auto].
+    + right. exists b'. split; [right; auto|auto].
+Qed.
+
+Definition gsubs_in (P : sub -> Prop) (G : list gent) : Prop :=
+  forall i g s, nth_error G i = Some g -> In s (subs_list (g_subs g)) -> P s.
+
+Lemma merge_from_provenance : forall (P : sub -> Prop) fuel i ci ri ns G G',
+  merge_from fuel i ci ri ns G = Some G' -> gsubs_in P G -> (forall s, In s ns -> P s) -> gsubs_in P G'.
+Proof.
+  induction fuel as [|fuel IH]; intros i ci ri ns G G' H HG Hns; simpl in H.
+  - inversion H; subst; auto.
+  - destruct (nth_error ci i) as [c|]; [|discriminate]. destruct (nth_error ri i) as [r|]; [|discriminate].
+    destruct (negb (mem_nat r (firstn i ci)) && negb (mem_nat c (firstn i ci))).
+    + destruct (nth_error G c) as [gc|] eqn:Hgc; [|discriminate].
+      destruct (nth_error G r) as [gr|] eqn:Hgr; [|discriminate].
+      destruct (nth_error ns i) as [s0|] eqn:Hs; [|discriminate].
+      eapply IH; eauto.
+      intros j g s Hj Hin.
+      destruct (Nat.eq_dec c j) as [->|Ne].
+      * rewrite nth_error_set_nth_eq in Hj by (apply nth_error_Some; congruence).
+        inversion Hj; subst; clear Hj. cbn in Hin. apply in_app_or in Hin. destruct Hin as [X|[X|[]]].
+        -- exact (HG j gc s Hgc X).
+        -- subst. apply Hns. eapply nth_error_In; eauto.
+      * rewrite nth_error_set_nth_neq in Hj by auto. exact (HG j g s Hj Hin).
+    + eapply IH; eauto.
+Qed.
+
+Lemma zoo_fix_subs : forall zs L i e', nth_error (zoo_fix zs L) i = Some e' ->
+  exists e, nth_error L i = Some e /\ e_subs e' = e_subs e.
+Proof.
+  induction zs as [|z zs IH]; intros L i e' H; simpl in H.
+  - destruct L; eauto.
+  - destruct L as [|e L]; [destruct i; discriminate|].
+    destruct i as [|i]; simpl in *.
+    + inversion H; subst. exists e. split; auto. destruct z as [[s y]|]; reflexivity.
+    + apply IH. exact H.
+Qed.
+
+Lemma forallb_nth_error : forall A (p : A -> bool) l i x, forallb p l = true -> nth_error l i = Some x -> p x = true.
+Proof. intros. rewrite forallb_forall in H. apply H. eapply nth_error_In; eauto. Qed.
+
+Lemma merge_from_length : forall fuel i ci ri ns G G', merge_from fuel i ci ri ns G = Some G' -> length G' = length G.
+Proof.
+  induction fuel as [|fuel IH]; intros i ci ri ns G G' H; simpl in H.
+  - inversion H; auto.
+  - destruct (nth_error ci i); [|discriminate]. destruct (nth_error ri i); [|discriminate].
+    destruct (negb _ && negb _).
+    + destruct (nth_error G n); [|discriminate]. destruct (nth_error G n0); [|discriminate].
+      destruct (nth_error ns i); [|discriminate]. apply IH in H. rewrite set_nth_length in H. exact H.
+    + eapply IH; eauto.
+Qed.
+
+Lemma make_changes_gsubs : forall (P : sub -> Prop) G L,
+  gsubs_in P G -> (forall i e s, nth_error L i = Some e -> In s (subs_list (e_subs e)) -> P s) ->
+  gsubs_in P (make_changes_lists G L).
+Proof.
+  intros P G L HG HL i g' s Hg' Hin.
+  assert (Hi : i < length G).
+  { rewrite <- (make_changes_lists_length G L). apply nth_error_Some. congruence. }
+  destruct (nth_error_some_lt _ G i Hi) as [g Hg].
+  rewrite (make_changes_spec _ _ _ _ Hg) in Hg'. inversion Hg'; subst g'; clear Hg'.
+  destruct (nth_error L i) as [e|] eqn:He.
+  - destruct (e_str e =? g_str g).
+    + exact (HG i g s Hg Hin).
+    + cbn in Hin. exact (HL i e s He Hin).
+  - exact (HG i g s Hg Hin).
+Qed.
+
+(* a block stage, started right after a slice, whose blocks append no substitution: the lists keep their content *)
+Lemma neutral_stage : forall k bs fr0 fr fr' (P : sub -> Prop),
+  fL fr = fL (reslice fr0) -> fG fr = fG fr0 ->
+  run_blocks_from k 0 bs fr = Some fr' -> length bs = length (fG fr0) ->
+  (forall b, In b bs -> appended b = []) ->
+  gsubs_in P (fG fr0) ->
+  gsubs_in P (fG fr') /\ (forall i e s, nth_error (fL fr') i = Some e -> In s (subs_list (e_subs e)) -> P s).
+Proof.
+  intros k bs fr0 fr fr' P HL HG R Len AP G0.
+  destruct (run_blocks_from_lengths _ _ _ _ _ R) as [LG LL]. rewrite HG in LG.
+  assert (LL0 : length (fL fr') = length (fG fr0)).
+  { rewrite LL, HL. unfold reslice; cbn. apply map_length. }
+  split.
+  - intros i g' s Hg' Hin.
+    assert (Hi : i < length (fG fr0)) by (rewrite <- LG; apply nth_error_Some; congruence).
+    destruct (nth_error_some_lt _ _ i Hi) as [g Hg].
+    destruct (stage_from_reslice k bs fr0 fr fr' HL HG R Len i g Hg)
+      as (b & e' & g1 & Hb & He' & Hg1 & S1 & _ & _ & _ & S5).
+    rewrite Hg' in Hg1. inversion Hg1; subst g1; clear Hg1.
+    rewrite (AP b (nth_error_In _ _ Hb)), app_nil_r in S1.
+    apply (G0 i g s Hg). destruct S5 as [S5|[_ S5]]; [rewrite <- S5; auto | rewrite <- S1, <- S5; auto].
+  - intros i e s He Hin.
+    assert (Hi : i < length (fG fr0)) by (rewrite <- LL0; apply nth_error_Some; congruence).
+    destruct (nth_error_some_lt _ _ i Hi) as [g Hg].
+    destruct (stage_from_reslice k bs fr0 fr fr' HL HG R Len i g Hg)
+      as (b & e' & g1 & Hb & He' & Hg1 & S1 & _).
+    rewrite He in He'. inversion He'; subst e'; clear He'.
+    rewrite (AP b (nth_error_In _ _ Hb)), app_nil_r in S1.
+    apply (G0 i g s Hg). rewrite <- S1. exact Hin.
+Qed.
+
+Lemma first_window_good : forall B G fr1,
+  forallb (fun g => negb (is_some (g_subs g))) G = true -> length B = length G ->
+  run_blocks_from KB 0 B (init_frame G) = Some fr1 ->
+  gsubs_in (fun s => exists j b, nth_error B j = Some b /\ is_cut b = false /\ In s (appended b))
+           (fG (make_changes fr1)).
+Proof.
+  intros B G fr1 HN LB R1 i g s Hg Hin. unfold make_changes in Hg; cbn in Hg.
+  destruct (run_blocks_from_lengths _ _ _ _ _ R1) as [LG LL].
+  assert (Hi : i < length G).
+  { assert (X : i < length (make_changes_lists (fG fr1) (fL fr1))) by (apply nth_error_Some; congruence).
+    rewrite make_changes_lists_length, LG in X. exact X. }
+  destruct (nth_error_some_lt _ G i Hi) as [g0 Hg0].
+  destruct (stage_from_reslice KB B (mkFr G [] 0 false false [] [] []) (init_frame G) fr1 eq_refl eq_refl R1 LB i g0 Hg0)
+    as (b & e' & g1 & Hb & He' & Hg1 & S1 & S2 & S3 & S4 & S5).
+  assert (N0 : g_subs g0 = None).
+  { pose proof (forallb_nth_error _ _ _ _ _ HN Hg0) as X. cbn in X. destruct (g_subs g0); [discriminate|auto]. }
+  rewrite N0 in S5, S1. cbn in S5, S1. destruct S5 as [S5|[S5 _]]; [|discriminate].
+  rewrite (make_changes_spec _ _ _ _ Hg1), He' in Hg. inversion Hg; subst g; clear Hg.
+  destruct (e_str e' =? g_str g1) eqn:EQ.
+  - rewrite S5 in Hin. contradiction.
+  - cbn in Hin. exists i, b. split; auto. split.
+    + destruct (is_cut b) eqn:CB; auto. destruct (S2 eq_refl (or_introl eq_refl)) as [X _].
+      apply Nat.eqb_neq in EQ. congruence.
+    + rewrite S1 in Hin. exact Hin.
+Qed.
+
+(* SMALL CALLS.  With at most one parameter sympy_simplify runs block KB, make_changes, blocks KD and KE
+   (KE does nothing: there is no second parameter name to reorder).  Whatever is cut, every substitution in the
+   lists it returns was appended by a block that ran to its end, or comes from new_inv_subs. *)
+Theorem small_calls_no_stale : forall B D E Z G G',
+  let ss := call_script [] B false [] D E Z in
+  forallb (stage_ok (length G)) ss = true ->
+  forallb (fun b => match fst b with [] => true | _ => false end) E = true ->
+  forallb (fun g => negb (is_some (g_subs g))) G = true ->
+  run_call ss G = Some G' ->
+  forall i g s, nth_error G' i = Some g -> In s (subs_list (g_subs g)) ->
+    (exists j b, nth_error B j = Some b /\ is_cut b = false /\ In s (appended b)) \/
+    (exists b, In b D /\ In s (vals_of is_ns (concat (fst b)))).
+Proof.
+  intros B D E Z G G' ss Hok HE HN H.
+  set (Good := fun s => (exists j b, nth_error B j = Some b /\ is_cut b = false /\ In s (appended b)) \/
+                        (exists b, In b D /\ In s (vals_of is_ns (concat (fst b))))).
+  change (gsubs_in Good G').
+  unfold ss, call_script in Hok, H. simpl in Hok, H.
+  repeat (apply andb_prop in Hok; destruct Hok as [?Hs Hok]).
+  apply andb_prop in Hs. destruct Hs as [LB HsB]. apply Nat.eqb_eq in LB.
+  apply andb_prop in Hs0. destruct Hs0 as [LD HsD]. apply Nat.eqb_eq in LD.
+  apply andb_prop in Hs1. destruct Hs1 as [LE HsE]. apply Nat.eqb_eq in LE.
+  unfold run_call in H. simpl in H.
+  destruct (run_blocks_from KB 0 B (init_frame G)) as [fr1|] eqn:R1; [|discriminate].
+  set (fr2 := make_changes fr1) in *.
+  set (fr4 := reset_lists (reset_lists (reslice fr2))) in *.
+  destruct (run_blocks_from KD 0 D fr4) as [fr5|] eqn:R5; [|discriminate].
+  destruct (merge fr5) as [fr6|] eqn:R6; [|discriminate].
+  set (fr7 := reslice fr6) in *.
+  destruct (run_blocks_from KE 0 E fr7) as [fr8|] eqn:R8; [|discriminate].
+  inversion H; subst G'; clear H. cbn.
+  assert (L2 : length (fG fr2) = length G).
+  { unfold fr2, make_changes; cbn. rewrite make_changes_lists_length.
+    destruct (run_blocks_from_lengths _ _ _ _ _ R1) as [X _]. rewrite X. unfold init_frame, reslice; reflexivity. }
+  assert (G2 : gsubs_in Good (fG fr2)).
+  { intros i g s Hg Hin. left. exact (first_window_good B G fr1 HN LB R1 i g s Hg Hin). }
+  assert (APD : forall b, In b D -> appended b = []).
+  { intros b Hb. rewrite forallb_forall in HsD. specialize (HsD b Hb). unfold blk_ok in HsD.
+    repeat (apply andb_prop in HsD; destruct HsD as [HsD ?]).
+    destruct (executed_prefix b) as [rest P]. unfold appended. eapply conforms_no_subs; eauto. }
+  destruct (neutral_stage KD D fr2 fr4 fr5 Good eq_refl eq_refl R5 (eq_trans LD (eq_sym L2)) APD G2) as [G5 _].
+  assert (NS5 : forall s, In s (f_ns fr5) -> Good s).
+  { intros s Hin. destruct (run_blocks_ns_provenance _ _ _ _ _ _ R5 Hin) as [X|X]; [cbn in X; contradiction|].
+    right. exact X. }
+  assert (L5 : length (fG fr5) = length G).
+  { destruct (run_blocks_from_lengths _ _ _ _ _ R5) as [X _]. rewrite X. exact L2. }
+  assert (G6 : gsubs_in Good (fG fr6) /\ length (fG fr6) = length G).
+  { unfold merge in R6. destruct (merge_from _ _ _ _ _ _) as [G6'|] eqn:M; [|discriminate].
+    inversion R6; subst; cbn. split.
+    - eapply merge_from_provenance; eauto.
+    - rewrite (merge_from_length _ _ _ _ _ _ _ M). exact L5. }
+  destruct G6 as [G6 L6].
+  assert (APE : forall b, In b E -> appended b = []).
+  { intros b Hb. rewrite forallb_forall in HE. specialize (HE b Hb). destruct b as [t c]. simpl in HE.
+    destruct t; [|discriminate]. unfold appended, executed. simpl. destruct c; [rewrite firstn_nil|]; reflexivity. }
+  destruct (neutral_stage KE E fr6 fr7 fr8 Good eq_refl eq_refl R8 (eq_trans LE (eq_sym L6)) APE G6) as [G8 L8].
+  apply make_changes_gsubs; auto.
+  intros i e s He Hin. destruct (zoo_fix_subs _ _ _ _ He) as [e0 [He0 Eq]]. rewrite Eq in Hin. eapply L8; eauto.
+Qed.
